@@ -99,6 +99,29 @@ async def value_lookup(node, key):
     return found, batches
 
 
+async def value_lookup_via_queue(loop, node, key, nodes, net):
+    """the interface the downloader uses: Node.accumulate_peers(search queue) -> peer queue; the lookup is over when the network
+    is at rest again"""
+    sq = asyncio.Queue()
+    sq.put_nowait(key.hex())
+    pq, task = node.accumulate_peers(sq)
+    try:
+        await asyncio.sleep(1)
+        await quiet(loop, nodes, net=net)
+        await asyncio.sleep(RPC_T + 1)
+        await quiet(loop, nodes, net=net)
+    finally:
+        task.cancel()
+        try:
+            await task
+        except (asyncio.CancelledError, Exception):
+            pass
+    found = []
+    while not pq.empty():
+        found.extend(pq.get_nowait())
+    return found, 1
+
+
 # ======================================= part: hit =========================================================
 
 def hit_strategy(tier):
@@ -116,6 +139,8 @@ def hit_strategy(tier):
         "blob_mode": st.sampled_from(["random", "near_node", "near_announcer"]),
         "lookers_after_jump": st.integers(1, 4),
         "re_subset": st.sampled_from(["all", "first", "first"]),
+        "shared_ip": st.sampled_from([0, 0, 2, 3]),        # 0: every node has its own address
+        "via_queue": st.sampled_from([False, False, True]),  # first-stage lookups through Node.accumulate_peers
         "stages": st.sampled_from([["now"], ["now", "1h"], ["now", "24h-"], ["now", "24h+"], ["now", "1h", "24h-", "24h+"],
                                    ["now", "24h-", "24h+"], ["now", "re20h", "25h", "44h+"], ["re20h", "25h"],
                                    ["now", "re20h", "44h+"]]),
@@ -139,7 +164,21 @@ async def hit_async(case, out, loop):
     if len(set(ids)) < n:
         out.label("skipped:id-collision")
         return
-    nodes = [Node(loop, PeerManager(loop), ids[i], 4444, 4444, 3333, ip_of(i), rpc_timeout=RPC_T,
+    # some nodes sit behind the same external address as their predecessor (one NAT, one host): other ports, same IP
+    shared = {i for i in range(2, n) if case.get("shared_ip") and (i * 7 + case["seed"]) % case["shared_ip"] == 0}
+    ips, udp, tcp = [], [], []
+    for i in range(n):
+        if i in shared:
+            ips.append(ips[i - 1])
+            udp.append(udp[i - 1] + 1)
+            tcp.append(tcp[i - 1] + 1)
+        else:
+            ips.append(ip_of(i))
+            udp.append(4444)
+            tcp.append(3333)
+    if shared:
+        out.label("nodes_sharing_an_ip")
+    nodes = [Node(loop, PeerManager(loop), ids[i], udp[i], udp[i], tcp[i], ips[i], rpc_timeout=RPC_T,
                   is_bootstrap_node=(i == 0)) for i in range(n)]
     try:
         await nodes[0].start_listening(ip_of(0))
@@ -149,7 +188,7 @@ async def hit_async(case, out, loop):
             if order:
                 order.append(order.pop(p % len(order)))
         for k, i in enumerate(order):
-            nodes[i].start(ip_of(i), [(ip_of(0), 4444)])
+            nodes[i].start(ips[i], [(ip_of(0), 4444)])
             d = case["pacing"][k % len(case["pacing"])]
             if d:
                 await asyncio.sleep(d)
@@ -192,7 +231,8 @@ async def hit_async(case, out, loop):
         dist = lambda i: int.from_bytes(ids[i], "big") ^ int.from_bytes(key, "big")  # noqa: E731
         for a in ann:
             cand = sorted((i for i in range(n) if i != a), key=dist)[:K]
-            have = sum(1 for i in cand if any(p.address == ip_of(a) for p in nodes[i].protocol.data_store.get_peers_for_blob(key)))
+            have = sum(1 for i in cand if any((p.address, p.tcp_port) == (ips[a], tcp[a])
+                                              for p in nodes[i].protocol.data_store.get_peers_for_blob(key)))
             out.label("closest_storing:%d%%" % (100 * have // len(cand) // 25 * 25))
             if n > K + 1:
                 out.check(have >= 1, "hit:none-of-the-closest-nodes-stores-the-blob", "n=%d have %d of %d" % (n, have, len(cand)))
@@ -202,7 +242,10 @@ async def hit_async(case, out, loop):
                 if i in ann and len(ann) == 1:
                     continue
                 try:
-                    found, _ = await asyncio.wait_for(value_lookup(nodes[i], key), 100000)
+                    if case.get("via_queue") and stage == "now":
+                        found, _ = await asyncio.wait_for(value_lookup_via_queue(loop, nodes[i], key, nodes, net), 100000)
+                    else:
+                        found, _ = await asyncio.wait_for(value_lookup(nodes[i], key), 100000)
                 except asyncio.TimeoutError:
                     out.violate("hit:lookup-hangs:" + stage, "node %d" % i)
                     return
@@ -213,7 +256,7 @@ async def hit_async(case, out, loop):
                 for a in ann:
                     if a == i:
                         continue
-                    hit = (ip_of(a), 3333) in got
+                    hit = (ips[a], tcp[a]) in got
                     expect_hit = expect[a] if isinstance(expect, dict) else expect
                     if expect_hit is None:
                         continue
@@ -294,6 +337,10 @@ async def hit_async(case, out, loop):
         if net.reordered:
             out.label("reordered")
         out.label("announcers:%d" % len(ann), "ids:" + case["id_mode"])
+        if case.get("via_queue") and "now" in case["stages"]:
+            out.label("lookups_via_accumulate_peers")
+            if shared & set(ann):
+                out.label("announcer_shares_ip_with_another_node")
     finally:
         for x in nodes:
             try:
@@ -801,7 +848,7 @@ def _run(fn, case):
 
 PARTS = [
     Part("hit", hit_strategy, lambda c: _run(hit_async, c), 80, 250, quick_shards=6, thorough_shards=16,
-         essential=("stage:24h+", "stage:24h-", "stage:1h", "stage:re20h", "stage:25h", "stage:44h+", "re-announce:first-only", "duplicated", "reordered",
+         essential=("stage:24h+", "stage:24h-", "stage:1h", "stage:re20h", "stage:25h", "stage:44h+", "re-announce:first-only", "nodes_sharing_an_ip", "lookups_via_accumulate_peers", "duplicated", "reordered",
                     "n:5-12", "n:13-40")),
     Part("paging", paging_strategy, lambda c: _run(paging_async, c), 200, 1000, quick_shards=4, thorough_shards=16,
          essential=("m:89-100", "m:17-88", "storers:1", "storers:3")),
